@@ -4,6 +4,7 @@ import lib, uris
 from lib import enc, enc_s, dec, show
 
 PID = "C09"
+SPECIAL = []
 SHAPES = {"71": "c08_rel_cancels", "74": "c08_rel_stale_dot", "75": "c08_rel_dot_eaten", "72": "c08_rel_exposes_colon", "73": "c08_rel_exposes_empty"}
 
 def gen(chk, mdl):
@@ -11,6 +12,10 @@ def gen(chk, mdl):
     refs = uris.valid_texts(mdl, uris.small_texts(3 if q else 4, queries=(None,)))
     refs += uris.valid_texts(mdl, uris.small_texts(2, alphabet=["a", "..", ".", "%41", "B:c"], auths=(None, "//H"), schemes=(None, "S"), queries=(None, "%7e"), frags=(None, "F")))
     refs += ["./b:c/" + "/".join(t) for n in range(1, 4) for t in __import__("itertools").product(["..", ".", "x", ""], repeat=n)]
+    global SPECIAL
+    SPECIAL = ["//ex%41mple.com/a", "//%50%59", "//a%41", "//x%41y/../b", "s://ex%41mple.com", "//u@x%59:8/a"]     # a decoded triplet is the host's only upper-case letter
+    SPECIAL += uris.valid_texts(mdl, [pre + sg + post for sg in uris.COLON_SEGS for pre in ("./", "x/../", "", "a/") for post in ("", "/t", "/..")])
+    refs += SPECIAL
     refs = [r for r in sorted(set(refs)) if "%2e" not in r.lower()]          # the property excludes percent-encoded dot segments
     bases = [t for t in uris.valid_texts(mdl, uris.small_texts(2, queries=(None, "q"))) if t.startswith("s:")]
     bases += ["s://u@[::1]:8/a/b?q", "S://H/%41/b", "s:a/b/c", "s:/a/b/c", "s://h/a/b/c/d;p?q", "s:/a/b/c/d/e", "s:a/b/c/d"]
@@ -36,7 +41,8 @@ def run(chk):
     pairs = [(r, b) for b in bases for r in refs]
     if chk.tier == "quick" and len(pairs) > 70000:
         deep = [(r, b) for (r, b) in pairs if r.count("..") >= 3 and b.count("/") >= 4]
-        pairs = chk.rng.sample(pairs, 70000) + deep
+        sp = set(SPECIAL); keep = [(r, b) for (r, b) in pairs if r in sp and (b.count("/") >= 3 or "?" in b)]
+        pairs = chk.rng.sample(pairs, 70000) + deep + keep
     pairs += degenerate_pairs(mdl)
     # slot 0 = R, 1 = B, 2 = normalized copy of R; 3 = N(resolve(N(R),B)); 4 = N(resolve(R,B))
     reqs = [H([('p', 0, r), ('p', 1, b), ('p', 2, r), ('n', 2, 63), ('a', 3, 2, 1, 0), ('n', 3, 63), ('a', 4, 0, 1, 0), ('n', 4, 63), ('e', 3, 4)]) for r, b in pairs]
